@@ -165,7 +165,7 @@ fn random_graph(rng: &mut Rng) -> Graph {
 pub fn run(cx: &mut Cx) {
     let depths: Vec<usize> = vec![1, 2, 4, 8, 16, 24, 32];
     let n_chain = (depths.len() * 2) as u64;
-    let total = n_chain + cx.total(20_000, 1_500_000);
+    let total = n_chain + cx.total(80_000, 3_000_000);
     let dump = cx.dump;
     for case in cx.my_cases(total) {
         let mut rng = cx.rng(case);
@@ -236,18 +236,47 @@ pub fn run(cx: &mut Cx) {
             }
         }
         // ---- engine
-        let replay = json!({"shape": g.shape, "templates": srcs, "fallback_prefix": g.use_prefix});
+        // registration: one batch (either order), or in two steps: first the set with every edge of one template cut,
+        // then that template registered again with its real source, so that the final set is reached through an
+        // accepted intermediate one (the verdict must be about the resulting set, not about how it was reached)
+        let cut = if case % 4 >= 2 && k > 1 { Some(rng.below(k)) } else { None };
+        let cut_srcs = cut.map(|i| {
+            let mut ext = g.ext.clone();
+            let mut inc = g.inc.clone();
+            ext[i] = None;
+            inc[i] = vec![];
+            sources(&Graph { names: g.names.clone(), use_prefix: g.use_prefix, ext, inc, supers: g.supers.clone(), shape: String::new() })
+        });
+        let replay = json!({"shape": g.shape, "templates": srcs, "fallback_prefix": g.use_prefix,
+            "registration": match cut { Some(i) => format!("first every template with the edges of {} cut, then {} again with its real source", g.names[i], g.names[i]), None => "one batch".to_string() }});
         cx.eval();
         let built = guard(|| {
-            let mut t = Tera::default();
-            if g.use_prefix {
-                t.set_fallback_prefixes(vec!["p/"]).unwrap();
+            let fresh = || {
+                let mut t = Tera::default();
+                if g.use_prefix {
+                    t.set_fallback_prefixes(vec!["p/"]).unwrap();
+                }
+                t
+            };
+            if let (Some(i), Some(cs)) = (cut, &cut_srcs) {
+                let mut t = fresh();
+                if t.add_raw_templates(cs.clone()).is_ok() {
+                    let r = t.add_raw_template(&srcs[i].0, &srcs[i].1);
+                    return (t, r, true);
+                }
             }
+            let mut t = fresh();
             let mut s2 = srcs.clone();
             if case % 2 == 1 {
                 s2.reverse();
             }
             let r = t.add_raw_templates(s2);
+            (t, r, false)
+        });
+        let built = built.map(|(t, r, stepwise)| {
+            if stepwise {
+                cx.count("graphs_completed_in_a_second_step", 1);
+            }
             (t, r)
         });
         let (t, res) = match built {
